@@ -318,7 +318,8 @@ Definition op_commit_wal (s : st) (frames : list (N * pg)) (commit : N) : outcom
         let wf := wal_file s1 ++ map (fun kv => (fst kv, snd kv, 0)) (removelast frames) ++
                   match rev frames with (p, q) :: _ => [(p, q, commit)] | [] => [] end in
         let s2 := with_wal s1 (append_chk new (wal_chk s1)) (merge_latest tx (wal_latest s1)) wf in
-        (Done, with_pos s2 commit (wal_mode s2) (txid s + 1) post (ltxdir s ++ [f]))
+        let wal := match alookup 1 tx_nolock with Some q => pg_wal q | None => wal_mode s2 end in   (* mode follows page 1 (F17 repair) *)
+        (Done, with_pos s2 commit wal (txid s + 1) post (ltxdir s ++ [f]))
     end
   end.
 
@@ -346,7 +347,7 @@ Definition op_checkpoint (s : st) : outcome * st :=
 Definition op_apply (s : st) (f : ltxrec) (fatal : bool) : outcome * st :=
   let bad := if fatal then Exited else Failed in
   let s1 := fold_left (fun a kv => write_db_page a (fst kv) (snd kv)) (l_pages f) s in
-  let wal1 := match alookup 1 (l_pages f) with Some q => if pg_wal q then true else wal_mode s | None => wal_mode s end in
+  let wal1 := match alookup 1 (l_pages f) with Some q => pg_wal q | None => wal_mode s end in   (* mode follows page 1 (after the F16 repair) *)
   let '(s2, wal2) := if l_commit f =? 0
                      then (mkSt (writeable s1) (lockpg s1) [] (pageN s1) (wal_mode s1) [] [] (wal_chk s1) (wal_latest s1)
                                 [] (dirty s1) (txid s1) (chk s1) (ltxdir s1), false)
@@ -414,6 +415,27 @@ Definition op_forward (s : st) (f : ltxrec) (body_ok : bool) : outcome * st :=
   else if negb body_ok then (Failed, s)
   else op_apply (with_dir s (if is_snapshot f then [f] else ltxdir s ++ [f])) f true.
 
+(* Import db.go:2781 (after the F5/F6 repairs): the image is validated and written to the next LTX file
+   first; only then are journal and WAL discarded and the file applied.  [pages] = all pages of the
+   image in order (page 1 with its two counters reset), [ok] = the input could be read completely and
+   its page size is acceptable. *)
+Definition import_post (lock : N) (pages : list (N * pg)) : N :=
+  fold_left (fun a kv => if fst kv =? lock then a else fl (N.lxor a (pg_h (snd kv)))) pages 0.
+Definition op_import (s : st) (pages : list (N * pg)) (commit : N) (ok : bool) : outcome * st :=
+  if negb (writeable s) then (Failed, s)
+  else if negb ok then (Failed, s)
+  else
+    let pages' := filter (fun kv => negb (fst kv =? lockpg s)) pages in
+    let post := if commit =? 0 then 0 else import_post (lockpg s) pages in
+    let f := mkLtx (txid s + 1) (txid s + 1) (chk s) post commit pages' in
+    let s1 := with_dirty (with_wal (with_dir s (ltxdir s ++ [f])) [] [] []) [] in
+    op_apply s1 f true.
+
+(* Export db.go:2682: the pages 1..pageN, each from the last committed WAL version if any, else the file *)
+Fixpoint export_pages (s : st) (p : N) (n : nat) : list (option pg) :=
+  match n with O => [] | S n' => read_page s p :: export_pages s (p + 1) n' end.
+Definition op_export (s : st) : list (option pg) * (N * N) := (export_pages s 1 (N.to_nat (pageN s)), (txid s, chk s)).
+
 (* retention sweep: [old f] = modification time before the cut-off *)
 Fixpoint retention (dir : list ltxrec) (old : ltxrec -> bool) (backup : bool) (hwm : N) : list ltxrec :=
   match dir with
@@ -456,7 +478,8 @@ Inductive op :=
 | ODrop
 | OSetWriteable (b : bool)
 | OReceive (f : ltxrec)
-| ORetention (ages : list bool) (backup : bool) (hwm : N).
+| ORetention (ages : list bool) (backup : bool) (hwm : N)
+| OImport (pages : list (N * pg)) (commit : N) (ok : bool).
 
 Definition set_writeable (s : st) (b : bool) : st :=
   mkSt b (lockpg s) (dbfile s) (pageN s) (wal_mode s) (chk_pages s) (chk_blocks s) (wal_chk s) (wal_latest s)
@@ -476,6 +499,7 @@ Definition step (s : st) (o : op) : outcome * st :=
   | ODrop => op_drop s
   | OSetWriteable b => (Done, set_writeable s b)
   | OReceive f => op_receive s f
+  | OImport pages commit ok => op_import s pages commit ok
   | ORetention ages backup hwm =>
       (* ages: one flag per file of the directory, in order; a file is identified by its max TXID *)
       let tagged := combine (map l_max (ltxdir s)) ages in
